@@ -1,12 +1,19 @@
 #!/bin/bash
 # usage: seed_detect.sh <seed dir under /verif/seeded> <Cxx> [more checks...]
-# applies the seeded change to /repo, runs the quick checks, restores /repo.  Prints which checks fired.
+# applies the seeded change to a scratch worktree of /repo's HEAD (VERIF_REPO points the checks at it; /repo itself
+# stays untouched so that other work can go on), runs the quick checks, restores the worktree.
+# With SEED_IN_REPO=1 the patch is applied to /repo itself instead (git apply ... git checkout -- .).
 sd=$1; shift
-cd /repo || exit 2
-git status --short | grep -v "_build" && { echo "/repo not clean"; exit 2; }
+if [ -n "$SEED_IN_REPO" ]; then wt=/repo; else
+  wt=${SEED_WT:-/tmp/wt_detect}
+  [ -d $wt ] || git -C /repo worktree add --detach $wt >/dev/null 2>&1
+  git -C $wt checkout -q --detach $(git -C /repo rev-parse HEAD) || exit 2
+fi
+cd $wt || exit 2
+git status --short | grep -v "_build" && { echo "$wt not clean"; exit 2; }
 git apply $sd/patch.diff || { echo "patch does not apply"; exit 2; }
 for c in "$@"; do
-  out=$(cd /verif && timeout 3000 ./check $c --tier quick 2>&1); rc=$?
+  out=$(cd /verif && VERIF_REPO=$wt VERIF_EVIDENCE_DIR=/verif/.work/seed-evidence timeout 3000 ./check $c --tier ${SEED_TIER:-quick} 2>&1); rc=$?
   echo "check=$c rc=$rc $(echo "$out" | grep -c '^VIOLATION') violation lines"
   echo "$out" | grep -A2 "^VIOLATION" | grep "key=" | cut -c1-220 | head -6
   echo "$out" | grep -E "HARNESS" | head -2
